@@ -109,10 +109,9 @@ impl From<SelectorParseError<'_>> for SelectorError {
                     Self::UnexpectedTokenInAttribute
                 }
                 SelectorParseErrorKind::ClassNeedsIdent(_) => Self::InvalidClassName,
-                SelectorParseErrorKind::InvalidState => {
-                    debug_assert!(false, "invalid state");
-                    Self::UnsupportedSyntax
-                }
+                // NOTE: the parser reports this for constructs that are not allowed
+                // in the current parsing state, e.g. a pseudo-element inside `:not()`.
+                SelectorParseErrorKind::InvalidState => Self::UnsupportedSyntax,
             },
         }
     }
